@@ -15,7 +15,7 @@ import os
 import sys
 
 from .sym import (SInt, SBool, SBuf, SRegion, And, Or, Not, Implies, Iff, If, Eq, Abs, Min, Max,
-                  Unsupported, PathEnd, buf_equal, to_cells, assemble_le, cells_equal)
+                  Unsupported, PathEnd, PathDone, buf_equal, to_cells, assemble_le, cells_equal)
 from .engine import Outcome
 
 
